@@ -1,7 +1,7 @@
 """C16 - symmetry groups are proper point groups; orientation reduction is canonical.
 
 Specification: specs/SymGroup.tla (configurations SymGroup_q / _t / _cache / _cache3 / _ties / _conc / _conct /
-_early / _hkl500).
+_early / _hkl500 / _blocks).
 
 Binding (DESIGN.md section 5, C16):
   mode B  every sequence of named-group calls TLC explores (symcache hit / miss) is replayed against
@@ -25,6 +25,26 @@ Binding (DESIGN.md section 5, C16):
           compared with the specification's result for that start; the property clauses (member of the orbit,
           canonical, idempotent, metric kept, same indexed lattice; hkl: lexicographic maximum of the orbit)
           are re-evaluated on the *real* outputs in exact integer arithmetic;
+  mode A  hkl LISTS (specification mode l: find_uniq_hkls as it handles a 3 x n array - one pass per operator over
+          all columns, mask per column): every list of 1 .. ListMax columns over ListPool, column j turned by its
+          own group element, every start ONE real call with the whole array (int64 / float64 / int32; C / Fortran /
+          strided / reversed views; one column also as a 1-D array), compared with the specification's array and
+          with the list law ListColumnwise (column by column the lexicographic maximum of that column's orbit,
+          whatever the neighbours, the position and the length).  The law does not mention the length, so every
+          emitted hkl is scaled: lists of ListSizes columns (1, 2, 3, 255 .. 257, 1023, 1025, 4097, 16385, 32769,
+          65535, 65536, 65537, 2*65536+17, 300000; thorough + 2^20+1) and two seeded lengths, for every group, in
+          families mixed (a third of the columns the specification's pool hkl - expectation: the specification's
+          result -, the others seeded - expectation: the lexicographic maximum computed here, exact int64; every
+          column turned by its own seeded group element) / canonical (every column already reduced) / constant (one
+          column n times), dtypes int64 / int32 / float64 and layouts rotating over groups and lengths (thorough:
+          all nine combinations up to 1.4e5 columns); judged per column (vectorised), plus position independence:
+          the same list permuted gives the permuted result.  SymGroup_blocks.cfg: the block-wise variant that
+          forgets the trailing n % blocksize columns violates ListColumnwise (thorough).
+  plus    the users on MANY orientations in one call: refinegrains.makeuniq with 1, 2, 257, 1000 .. 3000 entries per
+          group (one seeded low-order group: 65536 + k; thorough: 70001 / 20001 for every group), every entry a
+          seeded symmetry image of one of K float orientations, filled in seeded key order - every entry must become
+          the largest-trace member of its own orbit; grid_index_parallel.uniq_grain_list with 1 .. 600 (3000) images
+          of K pairwise distinct orientations in seeded order - K grains, each found as often as it was handed in;
   plus    harness-side families where the model is covariant: hkl arrays of 1 .. 1000 seeded columns with
           entries up to 499 per dtype (expectation: lexicographic maximum, python / int64); float
           orientations of conforming cells scaled 0.25 x, 1 x, 100 x (1 A .. 1e3 A) handed over as array / nested
@@ -929,6 +949,252 @@ def judge_hbig(case, real, V):
     return int(indom.sum())
 
 
+# ---- hkl LISTS: the array route of find_uniq_hkls (specification mode l) and its scaling in the length ----
+
+HK_LAYOUTS = ("C", "F", "strided")
+
+
+def hk_arg(start, dtype, layout):
+    """the 3 x n int64 array `start` as the array handed to find_uniq_hkls"""
+    a = start.astype(dtype)
+    if layout == "F":                      # what np.array(list_of_hkl).T is
+        return np.asfortranarray(a)
+    if layout == "strided":                # every second column of a wider table
+        big = np.zeros((3, 2 * a.shape[1]), dtype=a.dtype)
+        big[:, ::2] = a
+        return big[:, ::2]
+    if layout == "reversed":               # negative stride
+        return np.ascontiguousarray(a[:, ::-1])[:, ::-1]
+    return np.ascontiguousarray(a)
+
+
+def call_hkls(arg, grp):
+    """the real find_uniq_hkls; returns (int64 3 x n result, None) or (None, what is wrong with the result)"""
+    import warnings
+    keep = arg.copy()
+    with warnings.catch_warnings():
+        warnings.simplefilter("ignore")
+        with np.errstate(all="ignore"):
+            r = np.asarray(sym_u.find_uniq_hkls(arg, grp))
+    if not np.array_equal(arg, keep):
+        OBSERVATIONS["find_uniq_hkls modifies its argument"] = OBSERVATIONS.get("find_uniq_hkls modifies its argument", 0) + 1
+    if r.shape != arg.shape:
+        return None, "shape %r for an argument of shape %r" % (r.shape, arg.shape)
+    rf = r.astype(float)
+    if not np.all(np.isfinite(rf)) or not np.all(rf == np.round(rf)):
+        return None, "non-integer / non-finite entries"
+    return np.round(rf).astype(np.int64), None
+
+
+def lexmax_columns(G, hk):
+    """independent definition, exact int64, one column at a time in the mathematical sense (vectorised over the
+    columns): the lexicographically largest member of every column's orbit and whether the whole orbit stays
+    within 499.  (|entries| <= 1998 < 2048: (h*4096 + k)*4096 + l orders the triples lexicographically.)"""
+    hk = hk.astype(np.int64)
+    n = hk.shape[1]
+    best = hk.copy()
+    bkey = np.full(n, -(1 << 62), dtype=np.int64)
+    amax = np.zeros(n, dtype=np.int64)
+    for o in G:
+        cand = np.empty((3, n), dtype=np.int64)
+        for r_ in range(3):
+            acc = np.zeros(n, dtype=np.int64)
+            for c_ in range(3):
+                if o[r_][c_]:
+                    acc += o[r_][c_] * hk[c_]
+            cand[r_] = acc
+        key = (cand[0] * 4096 + cand[1]) * 4096 + cand[2]
+        np.maximum(amax, np.abs(cand).max(axis=0) if n else amax, out=amax)
+        m = key > bkey
+        best[:, m] = cand[:, m]
+        bkey[m] = key[m]
+    return best, amax <= 499
+
+
+def turned_columns(G, hk, g):
+    """column c of hk turned by group element number g[c] (exact int64)"""
+    Ga = np.array(G, dtype=np.int64)
+    return np.einsum("nij,jn->in", Ga[g], hk.astype(np.int64))
+
+
+def in_orbit_columns(G, hk, r):
+    ok = np.zeros(hk.shape[1], bool)
+    Ga = np.array(G, dtype=np.int64)
+    for o in Ga:
+        ok |= (np.dot(o, hk) == r).all(axis=0)
+    return ok
+
+
+def judge_l(case, real, V):
+    """case: one 'l' record of the specification: name, x0 (the list), starts[k] (the list with column j turned by
+    group element Rot(k, j)), res[k] (the array the specification's vectorised scan returns), lex / indom (the
+    lexicographic maximum of every column's orbit, where the orbit stays within 499).  The real find_uniq_hkls
+    gets every start as ONE array (int64 / float64 / int32, C / Fortran / strided / reversed views; a list of one
+    column also as a 1-D array of 3)."""
+    name = case["name"]
+    grp = real.obj[name]
+    G = real.mats[name]
+    if G is None or grp is None:
+        return
+    key = ("l", name)
+    n = len(case["x0"])
+    lex = np.array(case["lex"], dtype=np.int64).T.reshape(3, n)
+    indom = np.array(case["indom"], bool)
+    for k, st in enumerate(case["starts"]):
+        start = np.array(st, dtype=np.int64).T.reshape(3, n)
+        want = np.array(case["res"][k], dtype=np.int64).T.reshape(3, n)
+        combos = [("int64", "C"), ("float64", "F"), ("int32", "strided"), ("int64", "reversed")]
+        for dtype, layout in combos[:4 if k % 3 == 0 else 2]:
+            r, bad = call_hkls(hk_arg(start, dtype, layout), grp)
+            if bad:
+                V.violation(key + ("shape",), "%s: find_uniq_hkls(%s array of %d column(s), %s) returns %s" %
+                            (name, dtype, n, layout, bad), case)
+                return
+            if not np.array_equal(r, want) and "tlc_invariant" not in case:
+                j = int(np.argmax((r != want).any(axis=0)))
+                V.violation(key + ("conform",), "%s: find_uniq_hkls(list %r as %s %s array): column %d comes back as %r, "
+                            "specification (vectorised scan): %r" %
+                            (name, [list(c) for c in start.T.tolist()], dtype, layout, j,
+                             [int(v) for v in r[:, j]], [int(v) for v in want[:, j]]), case)
+            badc = indom & (r != lex).any(axis=0)
+            if badc.any():
+                j = int(np.argmax(badc))
+                report_clause(V, name, "HklCanonical", "%s: find_uniq_hkls(list of %d column(s), %s %s): column %d = %r is "
+                              "reduced to %r, lexicographically largest member of its orbit: %r" %
+                              (name, n, dtype, layout, j, [int(v) for v in start[:, j]], [int(v) for v in r[:, j]],
+                               [int(v) for v in lex[:, j]]), case, G)
+        if n == 1 and k % 2 == 0:
+            # one hkl as a 1-D array: not a "3 x n array" (counted when it raises), judged when it is answered
+            try:
+                r1 = np.asarray(sym_u.find_uniq_hkls(start[:, 0].copy(), grp))
+            except Exception:
+                OBSERVATIONS["find_uniq_hkls(1-D array of 3) raises"] = OBSERVATIONS.get("find_uniq_hkls(1-D array of 3) raises", 0) + 1
+                continue
+            if r1.shape != (3,) or (indom[0] and [int(v) for v in r1] != [int(v) for v in lex[:, 0]]):
+                report_clause(V, name, "HklCanonical", "%s: find_uniq_hkls(1-D hkl %r) = %r, lexicographically largest "
+                              "member of its orbit: %r" % (name, [int(v) for v in start[:, 0]], r1.tolist(),
+                                                          [int(v) for v in lex[:, 0]]), case, G)
+
+
+LONG_FAMILIES = ("mixed", "canonical", "constant")
+
+
+def long_columns(rs, n, npool):
+    """n seeded columns (3 x n int64) and, per column, the index of the specification's pool entry it is (-1: a
+    seeded column that is not in the pool): two sixths pool entries, uniform within 249 (every orbit stays within
+    499), uniform within 499, small, 'small h, large +-k' (what a wrong packing base mixes up)"""
+    kind = rs.randint(0, 6, size=n)
+    hk = np.zeros((3, n), dtype=np.int64)
+    pidx = np.full(n, -1, dtype=np.int64)
+    m = kind <= 1
+    if npool:
+        pidx[m] = rs.randint(0, npool, size=int(m.sum()))
+    m = (kind == 2) | ((kind <= 1) & (npool == 0))
+    hk[:, m] = rs.randint(-249, 250, size=(3, int(m.sum())))
+    m = kind == 3
+    hk[:, m] = rs.randint(-499, 500, size=(3, int(m.sum())))
+    m = kind == 4
+    hk[:, m] = rs.randint(-5, 6, size=(3, int(m.sum())))
+    m = kind == 5
+    b = rs.randint(2, 250, size=int(m.sum()))
+    hk[0, m] = rs.randint(-3, 4, size=int(m.sum()))
+    hk[1, m] = b
+    hk[2, m] = -b + rs.randint(0, 2, size=int(m.sum()))
+    return hk, pidx
+
+
+def build_long(case, G):
+    """the long list of a case, rebuilt from its seed: base columns, the group element every column is turned by,
+    the columns handed over, the pool index per column"""
+    rs = np.random.RandomState(int(case["seed"]))
+    n = int(case["n"])
+    pool = np.array(case["pool"], dtype=np.int64).reshape(-1, 3)
+    hk, pidx = long_columns(rs, n, len(pool))
+    fromp = pidx >= 0
+    hk[:, fromp] = pool[pidx[fromp]].T
+    if case.get("family") == "constant":
+        c = int(rs.randint(n))
+        hk = np.repeat(hk[:, c:c + 1], n, axis=1)
+        pidx = np.repeat(pidx[c:c + 1], n)
+    g = rs.randint(0, len(G), size=n)
+    start = turned_columns(G, hk, g)
+    perm = rs.permutation(n)
+    return hk, pidx, start, perm
+
+
+def judge_hlong(case, real, V):
+    """case: name, n (number of columns - one of the specification's ListSizes or a seeded length), seed, family
+    (mixed: every column turned by its own seeded group element / canonical: every column already the reduced
+    member / constant: one column n times), pool + pool_exp (hkl the specification reduced and ITS results),
+    calls = [[dtype, layout, with_permutation]].  ONE call of the real find_uniq_hkls per entry of calls reduces
+    the whole 3 x n array.  Judged per column (vectorised): a pool column comes back as the specification's result
+    for that hkl (list law ListColumnwise: whatever the length and the position), every other column whose orbit
+    stays within 499 as the lexicographic maximum of its orbit (exact int64, computed here), every column as a
+    member of its own orbit; the same list permuted gives the permuted result (position independence)."""
+    name = case["name"]
+    grp = real.obj[name]
+    if real.mats[name] is None or grp is None:
+        return
+    G = case.get("G") or real.mats[name]      # the operators of the EXPECTATION: the specification's closure
+    key = ("hlong", name)
+    n = int(case["n"])
+    hk, pidx, start, perm = build_long(case, G)
+    lex, indom = lexmax_columns(G, hk)
+    fromp = pidx >= 0
+    if fromp.any():
+        pexp = np.array(case["pool_exp"], dtype=np.int64).reshape(-1, 3)
+        if not np.array_equal(pexp[pidx[fromp]].T, lex[:, fromp]):
+            raise common.MachineryError("hlong: the specification's result for a pool hkl is not the lexicographic "
+                                        "maximum computed by the harness (%s)" % name)
+        if not indom[fromp].all():
+            raise common.MachineryError("hlong: a pool hkl leaves the domain of the hkl clauses (%s)" % name)
+    if case.get("family") == "canonical":
+        start = np.where(indom[None, :], lex, start)
+    njudged = 0
+    for dtype, layout, with_perm in case["calls"]:
+        what = "%s: find_uniq_hkls(%s %s array of %d columns, %s)" % (name, dtype, layout, n, case.get("family", "mixed"))
+        r, bad = call_hkls(hk_arg(start, dtype, layout), grp)
+        if bad:
+            V.violation(key + ("shape",), "%s returns %s" % (what, bad), case)
+            return njudged
+        wrong = indom & (r != lex).any(axis=0)
+        if wrong.any():
+            j = int(np.argmax(wrong))
+            alone, _ = call_hkls(hk_arg(start[:, j:j + 1], dtype, "C"), grp)
+            alone_ok = alone is not None and np.array_equal(alone[:, 0], lex[:, j])
+            report_clause(V, name, "HklCanonical",
+                          "%s: column %d (%s) = %r comes back as %r; %s: %r; %d of %d columns are wrong, the first at "
+                          "position %d, the last at %d%s" %
+                          (what, j, "an hkl of the specification's pool" if fromp[j] else "seeded",
+                           [int(v) for v in start[:, j]], [int(v) for v in r[:, j]],
+                           "specification (list law: per column, independent of length and position)" if fromp[j]
+                           else "lexicographically largest member of its orbit", [int(v) for v in lex[:, j]],
+                           int(wrong.sum()), n, j, int(n - 1 - np.argmax(wrong[::-1])),
+                           "; the same column ALONE in a list of one is reduced correctly: the answer depends on the "
+                           "length of the list / the position in it" if alone_ok else ""), case, G)
+        rest = ~(indom & ~wrong)
+        if rest.any():
+            ok = in_orbit_columns(G, hk[:, rest], r[:, rest])
+            if not ok.all():
+                j = int(np.flatnonzero(rest)[int(np.argmin(ok))])
+                report_clause(V, name, "InOrbit", "%s: column %d = %r comes back as %r, which is not in its orbit" %
+                              (what, j, [int(v) for v in start[:, j]], [int(v) for v in r[:, j]]), case, G)
+        if with_perm and n > 1:
+            r2, bad = call_hkls(hk_arg(start[:, perm], dtype, layout), grp)
+            if bad:
+                V.violation(key + ("shape",), "%s (permuted) returns %s" % (what, bad), case)
+                return njudged
+            diff = indom[perm] & (r2 != r[:, perm]).any(axis=0)
+            if diff.any():
+                j = int(np.argmax(diff))
+                V.violation(key + ("position",), "%s: the result for a column depends on where it sits in the list: %r at "
+                            "position %d is reduced to %r, at position %d of the permuted list to %r (%d of %d columns)" %
+                            (what, [int(v) for v in start[:, perm[j]]], int(perm[j]), [int(v) for v in r[:, perm[j]]], j,
+                             [int(v) for v in r2[:, j]], int(diff.sum()), n), case)
+        njudged += int(indom.sum())
+    return njudged
+
+
 # ---- generic float orientations ------------------------------------------------------------
 
 FLOAT_CELLS = {
@@ -1222,6 +1488,94 @@ def judge_users_float(case, real, V):
     return "ok"
 
 
+def many_orientations(case, G):
+    """K seeded float orientations of a conforming cell, pairwise more than 1 degree apart (brute force over the
+    exact operators) and none near a trace tie, and for each the orbit member with the largest trace"""
+    rs = np.random.RandomState(int(case["seed"]))
+    name = case["name"]
+    bases = []
+    exps = []
+    tries = 0
+    while len(bases) < int(case["K"]) and tries < 40 * int(case["K"]):
+        tries += 1
+        cell = FLOAT_CELLS[name][tries % len(FLOAT_CELLS[name])]
+        ubi = np.dot(cell_rows(cell), quat_matrix(rs.normal(size=4)))
+        orbit = [np.dot(np.array(o, float), ubi) for o in G]
+        tr_ = [float(np.trace(m)) for m in orbit]
+        t = sorted(tr_, reverse=True)
+        if len(t) > 1 and t[0] - t[1] <= 1e-6 * float(np.abs(ubi).max()) * 3:
+            continue
+        if any(misorientation_deg(G, b, ubi) <= 1.0 for b in bases[-40:]):
+            continue
+        bases.append(ubi)
+        exps.append(orbit[int(np.argmax(tr_))])
+    return rs, bases, exps
+
+
+def judge_users_many(case, real, V):
+    """the users on MANY orientations in one call (size-dependent paths, state carried from one orientation to the
+    next).  case: name, seed, K (distinct orientations), n (orientations handed to makeuniq: entry k is a seeded
+    symmetry image of orientation k % K), m (grains handed to uniq_grain_list).
+      refinegrains.makeuniq(name): EVERY entry of ubisread and of grains becomes the orbit member with the largest
+        trace of its own orientation (computed here from the exact integer operators), whatever its key / position;
+      grid_index_parallel.uniq_grain_list(name, 0.5, 0.05): m symmetry images of the K orientations in seeded order at
+        one position -> K grains, found as often as images of each were handed over."""
+    from ImageD11 import refinegrains, grain, grid_index_parallel
+    name = case["name"]
+    G = real.mats[name]
+    if G is None:
+        return "ok"
+    rs, bases, exps = many_orientations(case, G)
+    K = len(bases)
+    if K == 0:
+        return "none"
+    Gf = np.array(G, float)
+    scale = float(np.abs(bases[0]).max()) * 3
+    n = int(case["n"])
+    if n:
+        which = np.arange(n) % K
+        g = rs.randint(0, len(G), size=n)
+        ubis = np.einsum("nij,njk->nik", Gf[g], np.array(bases)[which])
+        keys = [int(v) for v in rs.permutation(n)]                    # the dictionaries are filled in seeded order
+        with quiet():
+            o = refinegrains.refinegrains()
+        for k in keys:
+            o.ubisread[k] = ubis[k].copy()
+            o.grains[(k, "scan")] = grain.grain(ubis[k].copy(), translation=[0., 0., 0.])
+        with quiet():
+            o.makeuniq(name)
+        exp = np.array(exps)[which]
+        for label, got in (("ubisread", [o.ubisread.get(k) for k in range(n)]),
+                           ("grains", [o.grains[(k, "scan")].ubi if (k, "scan") in o.grains else None for k in range(n)])):
+            if any(x is None or np.shape(x) != (3, 3) for x in got):
+                user_violation(V, real, name, ("makeuniq", name, "many"), "refinegrains.makeuniq(%r) with %d orientations: "
+                               "an entry of %s is missing / malformed afterwards" % (name, n, label), case)
+                break
+            d = np.abs(np.array(got, float) - exp).max(axis=(1, 2))
+            badk = d > 1e-9 * scale + 1e-12
+            if badk.any():
+                k = int(np.argmax(badk))
+                user_violation(V, real, name, ("makeuniq", name, "many"), "refinegrains.makeuniq(%r) with %d orientations "
+                               "(symmetry images of %d distinct ones): %d entries of %s are not the orbit member with the "
+                               "largest trace, the first is key %d" % (name, n, K, int(badk.sum()), label, k), case)
+                break
+    m = int(case.get("m", 0))
+    if m:
+        which = np.concatenate([np.arange(K), rs.randint(0, K, size=max(0, m - K))])[:m]
+        g = rs.randint(0, len(G), size=len(which))
+        order = rs.permutation(len(which))
+        gl = [grain.grain(np.dot(Gf[g[c]], bases[which[c]]), translation=[1., 2., 3.]) for c in order]
+        with quiet():
+            ul = grid_index_parallel.uniq_grain_list(name, 0.5, 0.05, gl)
+        nf = sorted(int(x.nfound) for x in ul.uniqgrains)
+        want = sorted(int(v) for v in np.bincount(which, minlength=K) if v)
+        if nf != want:
+            user_violation(V, real, name, ("uniq_grain_list", name, "many"), "uniq_grain_list(%r): %d symmetry images of %d "
+                           "distinct orientations -> %d grains with nfound %r..., expected %d grains with %r..." %
+                           (name, len(which), len(want), len(nf), nf[:6], len(want), want[:6]), case)
+    return "ok"
+
+
 def judge_pbp(case, real, V):
     """sinograms.point_by_point.idxpoint reduces every indexed ubi with the group chosen by the
     initializer's symmetry string (line 1809).  The real initializer() is called with the symmetry string
@@ -1301,7 +1655,7 @@ def judge_pbp(case, real, V):
                     "reductions of the indexed ubis" % name, case)
 
 
-JUDGES = {"conc": judge_conc, "hbig": judge_hbig, "group": judge_group, "u": judge_u, "h": judge_h, "float": judge_float, "makeuniq": judge_makeuniq,
+JUDGES = {"conc": judge_conc, "hbig": judge_hbig, "l": judge_l, "hlong": judge_hlong, "users_many": judge_users_many, "group": judge_group, "u": judge_u, "h": judge_h, "float": judge_float, "makeuniq": judge_makeuniq,
           "uniq_grain_list": judge_uniq_grain_list, "pbp": judge_pbp, "users_float": judge_users_float}
 
 
@@ -1424,6 +1778,15 @@ def confirm_counterexample(inv, st, real, V, cells_of):
                     "nmax": len(set(tup(m) for m in orb if trace(m) == tm)), "tag": tolist(st["tag"]),
                     "tlc_invariant": inv}
             judge_u(case, real, V)
+        elif st["mode"] == "l":
+            ng = len(G)
+            starts = [[mv(G[(k + j) % ng], x0[j]) for j in range(len(x0))] for k in range(ng)]       # Rot(k+1, j+1) - 1
+            resl = [[mv(G[win[k][j] - 1], starts[k][j]) for j in range(len(x0))] for k in range(len(win))]
+            orbs = [[tuple(mv(o, h)) for o in G] for h in x0]
+            case = {"kind": "l", "name": name, "x0": x0, "starts": starts[:len(resl)], "res": resl,
+                    "lex": [list(max(o)) for o in orbs],
+                    "indom": [max(abs(v) for t_ in o for v in t_) <= 499 for o in orbs], "tlc_invariant": inv}
+            judge_l(case, real, V)
         else:
             resm = [[mv(G[win[k] - 1], mv(G[k], x0)) for k in range(len(G))]]
             case = {"kind": "h", "name": name, "hkls": [x0], "res": resm, "cells": cells_of(name), "tlc_invariant": inv}
@@ -1552,6 +1915,19 @@ def run_conc_section(chk, real, V, model_group, model_gens, thorough, fixed):
                                             "terminal classes" % (n, cls.get(n)))
 
 
+@contextlib.contextmanager
+def blas_single():
+    """np.dot of a 3 x 3 with a 3 x 300000 float array keeps every BLAS thread of the shared box spinning for
+    nothing: the long-list section runs numpy's BLAS on one thread (find_uniq_hkls itself has no threads)"""
+    try:
+        import threadpoolctl
+    except ImportError:
+        yield
+        return
+    with threadpoolctl.threadpool_limits(limits=1):
+        yield
+
+
 def guarded(judge, case, real, V, **kw):
     """an exception of the code under test inside a judge is a verdict about that code, not a machinery error"""
     try:
@@ -1648,7 +2024,8 @@ def _run(chk, real, V, tier, replay):
     records, cover = run_main_config(chk, base, real, V, WORKERS, thorough, 3000 if thorough else 900, cells_of,
                                      bighkls=sorted(set(big)))
     if thorough:
-        for a in ("CallMiss", "AddGen", "MultiplyNew", "MultiplyOld", "ChooseUbi", "ChooseHkl", "ScanKeep", "ScanSkip"):
+        for a in ("CallMiss", "AddGen", "MultiplyNew", "MultiplyOld", "ChooseUbi", "ChooseHkl", "ScanKeep", "ScanSkip",
+                  "ChooseList", "ScanListSome", "ScanListNone"):
             if cover.get(a, (0, 0))[1] == 0:
                 raise common.MachineryError("vacuity: action %s never taken" % a)
         chk.notes["action_coverage"] = {k: v[1] for k, v in cover.items()}
@@ -1684,6 +2061,15 @@ def _run(chk, real, V, tier, replay):
         chk.traces += len(rs)
         for r in rs:
             chk.case(("h", n, tuple(r["x0"])), nontrivial=r["x0"] != [0, 0, 0])
+    # list records (mode l): every start of every list is ONE call with the whole array
+    lrecs = [r for r in records if r["kind"] == "l"]
+    for r in lrecs:
+        guarded(judge_l, r, real, V)
+        chk.traces += len(r["starts"])
+        chk.case(("l", r["name"], tuple(map(tuple, r["x0"]))), nontrivial=len(r["x0"]) > 1)
+    chk.notes["hkl_list_records"] = len(lrecs)
+    if not lrecs or not any(len(r["x0"]) > 1 for r in lrecs):
+        raise common.MachineryError("vacuity: no hkl list record (mode l) with more than one column was emitted")
     chk.notes["orbit_records"] = {n: {"ubis": v[0], "tie_orbits": v[1]} for n, v in per.items()}
     chk.notes["hkl_records"] = len(hrecs)
     chk.notes["hkl_records_beyond_the_box"] = len([r for r in hrecs if max(abs(v) for v in r["x0"]) > 4])
@@ -1797,6 +2183,95 @@ def _run(chk, real, V, tier, replay):
     if sens == 0 and V.n() == 0:
         raise common.MachineryError("vacuity: no seeded hkl column distinguishes the packing base")
 
+    # ---- 4d. the list law scaled in the length: long hkl lists, one call each ------------------------
+    # pool = every hkl the specification reduced for this group (modes h and l) with ITS canonical result;
+    # lengths = the specification's ListSizes + two seeded ones
+    tsec = os.times()
+    sizes = sorted(set(int(v) for r in lrecs for v in r["sizes"]))
+    if not sizes or max(sizes) <= 65536:
+        raise common.MachineryError("vacuity: ListSizes of the configuration does not reach beyond 65536 columns")
+    rs_ = rng_for("hlong-sizes")
+    sizes = sorted(set(sizes + [int(rs_.randint(4, 3000)), int(rs_.randint(66000, 140000))]))
+    nlong = {"calls": 0, "columns_judged": 0, "lengths": sizes, "dtypes": {}, "layouts": {}, "families": {}}
+    for gi, n in enumerate(NAMES):
+        if real.mats[n] is None:
+            continue
+        Gm = model_group.get(n) or real.mats[n]          # the specification's closure: operators of the expectation
+        pool = {}
+        for r in hrecs:
+            if r["name"] == n and r.get("ndist") == 1:
+                pool[tuple(r["x0"])] = tuple(r["res"][0])
+        for r in lrecs:
+            if r["name"] == n:
+                for h, e, d in zip(r["x0"], r["lex"], r["indom"]):
+                    if d:
+                        pool[tuple(h)] = tuple(e)
+        pk = sorted(pool)
+        if pk:
+            dom = lexmax_columns(Gm, np.array(pk, dtype=np.int64).T)[1]
+            pk = [h for h, d in zip(pk, dom) if d]           # the hkl clauses end at 499 over the whole orbit
+        if len(pk) < 10:
+            raise common.MachineryError("vacuity: the specification reduced only %d hkl for %s" % (len(pk), n))
+        for si, N in enumerate(sizes):
+            big = N >= 60000
+            fams = LONG_FAMILIES if (thorough or N in (65537,) or (big and (si + gi) % 3 == 0)) else ("mixed",)
+            for fam in fams:
+                if fam != "mixed":
+                    calls = [[HK_JUDGED[(gi + si + k_) % 3], HK_LAYOUTS[(gi + si + k_) % 3], False]
+                             for k_ in range(2 if thorough else 1)]
+                elif thorough and N <= 140000:
+                    calls = [[d_, l_, True] for d_ in HK_JUDGED for l_ in HK_LAYOUTS]
+                elif thorough:
+                    calls = [[d_, HK_LAYOUTS[(gi + si + k_) % 3], True] for k_, d_ in enumerate(HK_JUDGED)]
+                else:
+                    other = ("int32", "float64")[(gi + si) % 2]
+                    calls = [["int64", HK_LAYOUTS[(gi + si) % 3], (gi + si) % 2 == 0],
+                             [other, HK_LAYOUTS[(gi + si + 1) % 3], (gi + si) % 2 == 1]]
+                    if not big:
+                        calls.append([("float64", "int32")[(gi + si) % 2], HK_LAYOUTS[(gi + si + 2) % 3], True])
+                case = {"kind": "hlong", "name": n, "n": N, "family": fam, "G": Gm,
+                        "seed": int(rng_for("hlong", n, N, fam).randint(1 << 30)),
+                        "pool": [list(h) for h in pk], "pool_exp": [list(pool[h]) for h in pk], "calls": calls}
+                with blas_single():
+                    out = guarded(judge_hlong, case, real, V)
+                chk.case(("hlong", n, N, fam), nontrivial=N > 1)
+                chk.traces += len(calls)
+                nlong["calls"] += len(calls) + sum(1 for c_ in calls if c_[2] and N > 1)
+                nlong["columns_judged"] += out if isinstance(out, int) else 0
+                nlong["families"][fam] = nlong["families"].get(fam, 0) + 1
+                for c_ in calls:
+                    nlong["dtypes"][c_[0]] = nlong["dtypes"].get(c_[0], 0) + 1
+                    nlong["layouts"][c_[1]] = nlong["layouts"].get(c_[1], 0) + 1
+        if n == "hexagonal":
+            chk.sample({"kind": "hlong", "name": n, "lengths": sizes, "pool_size": len(pk)}, limit=1)
+    t2 = os.times()
+    nlong["cpu_s"] = round((t2[0] + t2[1]) - (tsec[0] + tsec[1]), 1)
+    nlong["wall_s"] = round(t2[4] - tsec[4], 1)
+    chk.notes["hkl_long_lists"] = nlong
+
+    # ---- 4e. the users on many orientations in one call --------------------------------------------
+    nmany = {}
+    rs_ = rng_for("users_many")
+    longone = ["orthorhombic", "monoclinic_c", "monoclinic_a", "monoclinic_b"][int(rs_.randint(4))]
+    for n in NAMES:
+        if real.mats[n] is None:
+            continue
+        plan = [(1, 1, 1), (2, 2, 3), (5, 257, 40), (12, int(rs_.randint(1000, 3000)), 600 if not thorough else 3000)]
+        if thorough:
+            plan.append((20, 70001 if ORDER[n] <= 8 else 20001, 0))
+        elif n == longone:
+            plan.append((20, 65536 + int(rs_.randint(1, 9000)), 0))
+        for K, N, M in plan:
+            case = {"kind": "users_many", "name": n, "K": K, "n": N, "m": M,
+                    "seed": int(rng_for("users_many", n, N).randint(1 << 30))}
+            guarded(judge_users_many, case, real, V)
+            chk.case(("users_many", n, N, M))
+            chk.traces += 1
+            nmany[n] = nmany.get(n, 0) + N + M
+    t3 = os.times()
+    nmany["cpu_s"] = round((t3[0] + t3[1]) - (t2[0] + t2[1]), 1)
+    chk.notes["user_route_orientations_in_bulk"] = nmany
+
     # ---- 5. float orientations: generic, scaled cells 1 A .. 1e3 A, input kinds, near ties ---------
     nfl = 0
     nnear = 0
@@ -1861,7 +2336,11 @@ def _run(chk, real, V, tier, replay):
         chk.notes["observations"] = dict(OBSERVATIONS)
 
     if thorough:
-        selftest(real, urecs, hrecs, grecs, cells_of)
+        res = common.run_tlc("SymGroup", cfg_variant("SymGroup_blocks.cfg", fixed=fixed, tag="bl"), workers=1, timeout=900)
+        chk.add_tlc("SymGroup blocks (block-wise variant: ListColumnwise expected to be violated at 3 columns)", res)
+        if "ListColumnwise" not in res.violated:
+            raise common.MachineryError("SymGroup_blocks: TLC did not find the unreduced trailing column")
+        selftest(real, urecs, hrecs, grecs, cells_of, lrecs)
     V.flush()
     chk.rule = ("TLC enumerates, for each of the ten named groups, the makegroup behaviour, every sequence of 2 (3) "
                 "named-group calls, every interleaving of two concurrent first calls (quick: each name against itself "
@@ -1869,13 +2348,17 @@ def _run(chk, real, V, tier, replay):
                 "|q|^2R(q) with quaternion components in -QMax..QMax, every hkl of the box and static + seeded hkl up "
                 "to 499, each from every group element applied beforehand; seeded: two-thread schedules, hkl arrays, "
                 "float orientations (scales, input kinds, perturbed ties), users; non-trivial = group of order > 1 / "
-                "hkl != 0 / call sequence longer than 1")
+                "hkl != 0 / call sequence longer than 1; hkl lists: every list of 1..ListMax columns over ListPool as "
+                "one array, and every emitted hkl scaled to lists of ListSizes columns (per-column expectation)")
     chk.exhaustive = True
     chk.assumptions = ["exact cases are integer UBIs (products of small integers are exact in double precision)",
                        "float orientations: when the two best traces of the orbit are closer than 1e-10 relative the "
                        "canonical clause is not judged (ties are decided in exact arithmetic only); every other clause is",
                        "hkl clauses: entries up to 499 over the whole orbit, int64 / int32 / float64 arrays (beyond: the "
                        "packed key is not injective, SymGroup_hkl500.cfg; int16 / float32: key overflows / loses bits)",
+                       "long hkl lists: the columns are drawn from the hkl the specification reduced and from seeded "
+                       "triples; the expectation per column is the specification's result / the exact lexicographic "
+                       "maximum; numpy's BLAS runs on one thread in that section",
                        "two threads: CPython threads scheduled at the hook points (dictionary accesses, group(), "
                        "additem, op) - a thread switch inside numpy or between two bytecodes of one step is not modelled",
                        "point_by_point.initializer / idxpoint are driven with the file readers, indexer, peak selection "
@@ -2007,7 +2490,85 @@ def selftest_new_families(real, urecs, grecs, fixed, rejected):
         raise common.MachineryError("selftest: float user case with a wrong grain count not rejected")
 
 
-def selftest(real=None, urecs=None, hrecs=None, grecs=None, cells_of=None):
+def selftest_lists(real, hrecs, lrecs, grecs, rejected):
+    """the list judges: accepted as they are; rejected when the specification's expectation is perturbed, when the
+    reduction forgets the trailing partial block of a long list, when it depends on the position, when a user
+    skips an orientation"""
+    l = next(r for r in lrecs if r["name"] == "tetragonal" and len(r["x0"]) == 2 and r["x0"][0] != r["x0"][1]
+             and [0, 0, 0] not in r["x0"])
+    if rejected(judge_l, l):
+        raise common.MachineryError("selftest: unperturbed list record rejected")
+    l2 = copy.deepcopy(l)
+    l2["res"][3][1][0] += 1
+    if not rejected(judge_l, l2):
+        raise common.MachineryError("selftest: perturbed list expectation (conformance) not rejected")
+    l3 = copy.deepcopy(l)
+    l3["lex"][1] = l["starts"][1][1] if l["starts"][1][1] != l["lex"][1] else l["starts"][2][1]
+    if not rejected(judge_l, l3):
+        raise common.MachineryError("selftest: perturbed lexicographic maximum of a list column not rejected")
+    closure = {r["name"]: r["group"] for r in grecs}
+    pool = {tuple(r["x0"]): tuple(r["res"][0]) for r in hrecs
+            if r["name"] == "tetragonal" and r.get("ndist") == 1 and max(abs(v) for v in r["x0"]) <= 499}
+    pk = sorted(pool)
+    hc = {"kind": "hlong", "name": "tetragonal", "n": 70001, "family": "mixed", "seed": 11, "G": closure.get("tetragonal"),
+          "pool": [list(h) for h in pk], "pool_exp": [list(pool[h]) for h in pk],
+          "calls": [["int64", "C", True], ["float64", "F", False]]}
+    if rejected(judge_hlong, hc):
+        raise common.MachineryError("selftest: unperturbed long hkl list rejected")
+    hp = copy.deepcopy(hc)
+    k = next(i for i, h in enumerate(pk) if h != (0, 0, 0))
+    hp["pool_exp"][k][2] += 1
+    try:
+        judge_hlong(hp, real, Verdicts(None))
+        raise common.MachineryError("selftest: perturbed pool expectation of a long list went unnoticed")
+    except common.MachineryError as e:
+        if "went unnoticed" in str(e):
+            raise
+    orig = sym_u.find_uniq_hkls
+    try:
+        def blockwise(hkls, grp, bs=1 << 16):
+            out = hkls.copy()
+            nb = hkls.shape[1] // bs if hkls.shape[1] > bs else 1
+            w = bs if hkls.shape[1] > bs else hkls.shape[1]
+            for i in range(nb):
+                out[:, i * w:(i + 1) * w] = orig(hkls[:, i * w:(i + 1) * w], grp)
+            return out
+        sym_u.find_uniq_hkls = blockwise
+        if rejected(judge_hlong, dict(hc, n=65536)):
+            raise common.MachineryError("selftest: block-wise reduction rejected at a whole number of blocks")
+        if not rejected(judge_hlong, hc):
+            raise common.MachineryError("selftest: unreduced trailing block of a long hkl list not rejected")
+
+        def positional(hkls, grp):
+            out = orig(hkls, grp)
+            if hkls.shape[1] > 5:
+                out[:, 5] = hkls[:, 5]
+            return out
+        sym_u.find_uniq_hkls = positional
+        v = Verdicts(None)
+        judge_hlong(dict(hc, n=300), real, v)
+        if ("hlong", "tetragonal", "position") not in v.classes:
+            raise common.MachineryError("selftest: position-dependent reduction of a list not rejected")
+    finally:
+        sym_u.find_uniq_hkls = orig
+    uc = {"kind": "users_many", "name": "tetragonal", "K": 5, "n": 700, "m": 60, "seed": 3}
+    if rejected(judge_users_many, uc):
+        raise common.MachineryError("selftest: unperturbed bulk user case rejected")
+    origu = sym_u.find_uniq_u
+    count = [0]
+
+    def lazy(u, grp, *a, **k):
+        count[0] += 1
+        return np.array(u) if count[0] > 512 else origu(u, grp, *a, **k)
+    try:
+        sym_u.find_uniq_u = lazy
+        if not rejected(judge_users_many, uc):
+            raise common.MachineryError("selftest: makeuniq leaving the orientations after the 512th unreduced not rejected")
+    finally:
+        sym_u.find_uniq_u = origu
+
+
+def selftest(real=None, urecs=None, hrecs=None, grecs=None, cells_of=None, lrecs=None):
     """the binding rejects perturbed expectations"""
     global SHADOW
     if real is None:
@@ -2028,6 +2589,7 @@ def selftest(real=None, urecs=None, hrecs=None, grecs=None, cells_of=None):
         urecs = [r for r in recs if r["kind"] == "u"]
         hrecs = [r for r in recs if r["kind"] == "h"]
         grecs = [r for r in recs if r["kind"] == "group"]
+        lrecs = [r for r in recs if r["kind"] == "l"]
         cells = {r["name"]: r["cells"] for r in grecs}
         cells_of = lambda n: cells.get(n, [])
 
@@ -2098,6 +2660,7 @@ def selftest(real=None, urecs=None, hrecs=None, grecs=None, cells_of=None):
         if not rejected(judge_pbp, pc):
             raise common.MachineryError("selftest: perturbed idxpoint expectation not rejected")
     selftest_new_families(real, urecs, grecs, fixed, rejected)
+    selftest_lists(real, hrecs, lrecs or [], grecs, rejected)
     # float judge: a cell that does NOT conform (gamma = 60 with the hexagonal group) must be flagged
     ubi = np.dot(cell_rows((3.2, 3.2, 5.2, 90, 90, 60)), quat_matrix(np.array([0.9, 0.1, -0.3, 0.2])))
     if not rejected(judge_float, {"kind": "float", "name": "hexagonal", "ubi": ubi.tolist()}):
